@@ -96,7 +96,7 @@ TBad == <<47, 47, 98, 32, 100, 47, 120>>                   \* //b d/x   (blank i
 Day == <<5, 38, 92, 0>>                                    \* 86 400 000 ms
 PastU == <<7, 91, 205, 21>>                                \* 123456789 ms after 2000-01-01: decades ago
 
-Blk(kind, type, num, flags, crc, data, args) == [kind |-> kind, type |-> type, num |-> num, flags |-> flags, crc |-> crc, data |-> data, args |-> args]
+Blk(kind, type, num, flags, crc, data, args) == [kind |-> kind, type |-> type, num |-> num, flags |-> flags, crc |-> crc, data |-> data, args |-> args, w |-> 0]
 BPayload(num, flags, crc, data) == Blk("payload", 1, num, flags, crc, data, [len |-> Len(data)])
 BPrev(num, flags, crc, e) == Blk("prev", 6, num, flags, crc, DataPrevNode(e), [eid |-> e])
 BAge(num, flags, crc, u) == Blk("age", 7, num, flags, crc, DataAge(u), [u |-> u])
@@ -112,7 +112,7 @@ Ramp(n) == [i \in 1..n |-> (i * 7) % 256]
 
 Prim(flags, crc, dst, src, rpt, ts, seq, life) ==
   [ver |-> 7, flags |-> flags, crc |-> crc, dst |-> dst, src |-> src, rpt |-> rpt, ts |-> ts, seq |-> seq, life |-> life,
-   frag |-> FALSE, foff |-> NoU, ftotal |-> NoU]
+   frag |-> FALSE, foff |-> NoU, ftotal |-> NoU, w |-> 0]
 AsFrag(p, foff, ftotal) == [p EXCEPT !.frag = TRUE, !.foff = foff, !.ftotal = ftotal,
                                      !.flags = IF Bit(IntOfU(p.flags), 1) THEN p.flags ELSE UOfInt(IntOfU(p.flags) + 1)]
 
@@ -182,11 +182,18 @@ MapCases ==
   \cup {Bndl("maps-prophet", <<n, c>>, P0, <<BProphet(2, 0, c, ProphetPeers(n)), Pay0>>) : n \in 0..3, c \in 0..2}
   \cup {Bndl("maps-both", <<n, c>>, P0, <<BDtlsr(2, 0, c, EDtn(TSrc), <<9>>, DtlsrPeers(n)), BProphet(3, 0, 3 - c, ProphetPeers(n)), BPayload(1, 0, c, Ramp(4))>>) : n \in 2..3, c \in 1..2}
 
+(* the same bundles with every integer of the primary and canonical block headers in a head of 1, 2, 4 or 8 argument bytes:
+   well-formed, accepted by the parser, and never what the serialiser writes itself *)
+WideCases == {Bndl("wide", <<w, c>>, [P0 EXCEPT !.w = w, !.crc = c],
+                   <<[BHop(2, 1, c, 9, 3) EXCEPT !.w = w], [BAge(3, 0, 3 - c, <<1, 44>>) EXCEPT !.w = w], [BPayload(1, 0, c, Ramp(12)) EXCEPT !.w = w]>>) :
+                w \in {1, 2, 4, 8}, c \in 1..2}
+           \cup {Bndl("wide-frag", <<w>>, [AsFrag(P0, <<5>>, <<1, 0>>) EXCEPT !.w = w], <<[Pay0 EXCEPT !.w = w]>>) : w \in {1, 8}}
+
 (* ---- rule-violating mutants for C02: each mutation is a function on an abstract bundle ---- *)
 MBase == Bndl("mut", <<>>, [P0 EXCEPT !.flags = <<64>>], <<BPrev(2, 0, 1, EDtn(TPrev)), BHop(3, 0, 2, 9, 3), BPayload(1, 0, 1, Ramp(9))>>)
 Mutations == <<"ver", "nopayload", "twopayload", "paynum", "paynotlast", "dupnum", "duptype", "badipn-src", "baddtn-dst", "badprev",
                "fragmnf", "adminreq", "anonreq", "anonnomnf", "anonblockreq", "adminblockreq", "zeronoage", "hopexceeded",
-               "expired-ts", "expired-age">>
+               "expired-ts", "expired-age", "hopwide", "limitwide", "verwide">>
 SetFlags(b, f) == [b EXCEPT !.primary.flags = UOfInt(f)]
 AddFlag(b, f) == IF Bit(IntOfU(b.primary.flags), f) THEN b ELSE SetFlags(b, IntOfU(b.primary.flags) + f)
 Apply(m, b) ==
@@ -208,6 +215,10 @@ Apply(m, b) ==
     [] m = "adminblockreq" -> [AddFlag(b, 2) EXCEPT !.blocks = <<BUnknown(201, 14, 2, 1, <<7>>)>> \o b.blocks]
     [] m = "zeronoage" -> [b EXCEPT !.primary.ts = NoU]
     [] m = "hopexceeded" -> [b EXCEPT !.blocks = <<BHop(15, 0, 1, 4, 5)>> \o SelectSeq(b.blocks, LAMBDA x : x.type # 10)]
+    \* values beyond the 8 bits the implementation keeps for these fields: 259 = 256 + 3 must not be read as 3
+    [] m = "hopwide" -> [b EXCEPT !.blocks = <<BHop(15, 0, 1, 9, 259)>> \o SelectSeq(b.blocks, LAMBDA x : x.type # 10)]
+    [] m = "limitwide" -> [b EXCEPT !.blocks = <<BHop(15, 0, 1, 265, 3)>> \o SelectSeq(b.blocks, LAMBDA x : x.type # 10)]
+    [] m = "verwide" -> [b EXCEPT !.primary.ver = 263]
     [] m = "expired-ts" -> [b EXCEPT !.primary.ts = PastU, !.primary.life = <<3, 232>>]
     [] m = "expired-age" -> [b EXCEPT !.primary.ts = NoU, !.primary.life = <<3, 232>>, !.blocks = <<BAge(16, 0, 1, <<39, 16>>)>> \o SelectSeq(b.blocks, LAMBDA x : x.type # 7)]
 \* also the benign twin of "zeronoage": zero time *with* an age block must stay acceptable
@@ -231,6 +242,7 @@ Cases ==
     [] Family = "payload" -> PayloadCases
     [] Family = "eids" -> EidCases
     [] Family = "maps" -> MapCases
+    [] Family = "wide" -> WideCases
     [] Family = "mut1" -> MutSingles \cup Benign
     [] Family = "mut2" -> MutPairs
     [] Family = "mut3" -> MutTriples
